@@ -35,6 +35,12 @@ Proof.
       specialize (IH a b). change ((d :: l') ++ [a; b]) with (d :: (l' ++ [a; b])) in IH.
       change ((d :: l') ++ [a]) with (d :: (l' ++ [a])) in IH. cbn [pairs]. cbn [pairs] in IH. tauto.
 Qed.
+Lemma last_app_nonnil {A} (l1 l2 : list A) d : l2 <> [] -> last (l1 ++ l2) d = last l2 d.
+Proof.
+  intros H. induction l1 as [|a l1 IH]; [reflexivity|].
+  cbn [app]. destruct (l1 ++ l2) eqn:E; [|exact IH].
+  apply app_eq_nil in E. tauto.
+Qed.
 Lemma hd_snoc {A} (l : list A) d x : hd d (l ++ [x]) = hd x l.
 Proof. destruct l; reflexivity. Qed.
 Lemma rev_cons2 {A} (b a : A) r : rev (b :: a :: r) = rev r ++ [a; b].
@@ -253,11 +259,11 @@ Section Abstract.
       unfold cc in *. apply (G4 (X o) (Y o) (X p) (Y p) (X s) (Y s)); [apply Xinc; lia|apply Xinc; lia|apply Xle; lia|exact Hk2|exact Hops].
   Qed.
 
-  Lemma SI_gap : forall out k, SI out -> (hd 0%nat out <= k <= last out 0%nat)%nat -> ~ In k out ->
+  Lemma SI_gap : forall out k, SI out -> (hd 1%nat out <= k <= last out 0%nat)%nat -> ~ In k out ->
     exists l1 p s l2, out = l1 ++ p :: s :: l2 /\ (p < k < s)%nat.
   Proof.
     induction out as [|a out IH]; intros k HS Hk Hn.
-    - cbn in Hk. exfalso. apply Hn. cbn in *. lia.
+    - cbn in Hk. lia.
     - destruct out as [|b out'].
       + cbn in Hk. exfalso. apply Hn. left. lia.
       + cbn [hd] in Hk. change (last (a :: b :: out') 0%nat) with (last (b :: out') 0%nat) in Hk.
@@ -319,7 +325,7 @@ Section Abstract.
       unfold cc in *. apply (G5 (X a) (Y a) (X k) (Y k) (X b) (Y b) (X p) (Y p) (X s) (Y s)); [apply Xinc; lia|apply Xinc; lia|apply Xinc; lia|apply Xinc; lia|exact HL|exact HR|exact HM].
     - intros Hv. destruct (in_dec Nat.eq_dec k out) as [|Hn]; [assumption|exfalso].
       destruct (SI_gap out k HS) as (l1 & p & s & l2 & E & Hps); auto.
-      { destruct out as [|o out']; cbn in Hhd; [lia|]. cbn [hd]. lia. }
+      { lia. }
       rewrite E in HC. apply pairs_mid in HC.
       assert (s <= last out 0%nat)%nat by (apply SI_le_last; auto; rewrite E; apply in_or_app; right; right; left; reflexivity).
       specialize (Hv p s Hps ltac:(lia)). specialize (HC k ltac:(lia)). rewrite cc_swap in Hv. lra.
